@@ -269,5 +269,49 @@ def _main_check(spec, tier, repo, seed, replay, scratch, t0, verbose):
             print("VIOLATION property=%s replay=%s" % (prop, path))
             print("   key:  %s" % key)
             print("   what: %s (%d case(s))" % (v["what"], v.get("count", 1)))
+            # replay before trusting: the recorded case alone, twice, must show the same violation
+            if not replay and i < 2 and os.environ.get("VERIF_NO_CONFIRM") != "1":
+                conf = confirm_by_replay(spec, repo, bins, scratch, path, key)
+                print("   replay: %s" % conf)
+                try:
+                    with open(path) as f:
+                        d = json.load(f)
+                    d["replay_confirmed"] = conf
+                    with open(path, "w") as f:
+                        json.dump(d, f, indent=1)
+                except Exception:
+                    pass
         rc = 1
     return rc
+
+
+def confirm_by_replay(spec, repo, bins, scratch, path, key):
+    """Runs the recorded case alone, twice; says whether both runs show the same violation key."""
+    try:
+        with open(path) as f:
+            rp = json.load(f)
+        jobs = [j for j in spec.jobs_fn(rp.get("tier", "quick"), repo) if j.name == rp["harness"]]
+        if not jobs:
+            return "not replayed (harness not found)"
+        j0 = jobs[0]
+        rfile = os.path.join(scratch, "confirm.json")
+        with open(rfile, "w") as f:
+            json.dump(rp["replay"], f)
+        seen = []
+        for n in range(2):
+            r = run_job(Job(j0.name, j0.build, list(rp.get("args", [])) + ["--replay=" + rfile], "confirm"),
+                        bins[json.dumps(j0.build, sort_keys=True)], scratch, 120.0, 60.0, 9000 + n)
+            if r["result"] is None:
+                seen.append(None)
+            else:
+                seen.append(sorted(v["key"] for v in r["result"].get("violations", [])))
+        if seen[0] is None or seen[1] is None:
+            return "replay run broke (rc %s)" % r["rc"]
+        if seen[0] != seen[1]:
+            return "NOT DETERMINISTIC: two replays of the same case differ (%s / %s)" % (seen[0][:3], seen[1][:3])
+        if key in seen[0]:
+            return "confirmed (the recorded case alone shows it, twice)"
+        return "the recorded case alone does not show this key (it shows %s): the violation depends on what ran before it" % (seen[0][:3],)
+    except Exception as e:  # confirmation is advisory
+        return "not replayed (%s)" % e
+
